@@ -292,8 +292,19 @@ func (t *Tracer) arg(a interface{}) string {
 	return string(b)
 }
 
+// hooks whose first argument is a resource version string: logged as the model version (see realToModel)
+var versionArg = map[string]bool{"ctl.synced": true, "ctl.distributed": true, "watcher.reset": true, "watcher.retry": true,
+	"watcher.sessiondone": true, "session.new": true, "session.connected": true}
+
 // Hook is kcache.VerifTrace.
 func (t *Tracer) Hook(actor interface{}, ev string, args ...interface{}) {
+	if versionArg[ev] && len(args) > 0 {
+		if s, ok := args[0].(string); ok && s != "" {
+			if _, err := strconv.ParseInt(s, 10, 64); err == nil {
+				args = append([]interface{}{strconv.Itoa(verModel(s))}, args[1:]...)
+			}
+		}
+	}
 	t.mu.Lock()
 	defer t.mu.Unlock()
 	t.seen[ev]++
